@@ -57,7 +57,10 @@ class Scratch:
 
     def prepare(self):
         inject.copy_tree(REPO, self.repo)
-        return inject.inject(self.repo)
+        rep = inject.inject(self.repo)
+        for g in props.PREGEN:
+            g(self.repo)
+        return rep
 
     def cleanup(self):
         if not self.keep:
@@ -174,7 +177,7 @@ PLAYBACK_RE = re.compile(r"(/// Test generated for harness `([^`]+)`.*?\n#\[test
 def kani_counterexample(scr, ob, logdir):
     """Ask Kani for concrete values of the refuted harness, then execute the harness
     natively (cargo kani playback: real code, real libm, no stubs) on them."""
-    h = ob["h"]
+    h = ob.get("cex") or ob["h"]   # plain twin with explicit assertions, where the obligation is a contract harness
     short = h.split("::")[-1]
     cmd = ["cargo", "kani"] + KANI_FLAGS + ["-Z", "concrete-playback", "--concrete-playback=print",
            "--target-dir", kani_target(), "--harness-timeout", "%ds" % ob["cap"],
@@ -187,7 +190,7 @@ def kani_counterexample(scr, ob, logdir):
         if "Check for `cover`" in block:
             continue
         tests.append((tname, block))
-    info = {"obligation": h, "verifier_output": "\n".join(out.split("\n")[-80:]), "tests": [], "confirmed": False}
+    info = {"obligation": ob["h"], "counterexample_harness": h, "verifier_output": "\n".join(out.split("\n")[-80:]), "tests": [], "confirmed": False}
     if not tests:
         info["note"] = "verifier printed no concrete values"
         return info
@@ -469,6 +472,9 @@ def run_property(pid, P, tier, seed, scr, logdir, a, t0):
         for v in real_viol:
             print("VIOLATION property=%s replay=%s%s" % (pid, v[1], "" if v[2] else " no-failing-input-found"))
         return 1
+    if not records and not bounded:
+        log("UNDECIDED: no obligation was generated (vacuous run)")
+        return 2
     if n_und:
         log("UNDECIDED: %d obligation(s) could not be decided; no violation reported" % n_und)
         return 2
